@@ -286,7 +286,8 @@ Theorem sml_stage_text (tt : list EngineSM.row) (structs protos msgs : list stri
 Proof.
   intros Hm Hok. unfold tt_model in Hm. destruct (fold_left tps_step tt (Some [])) as [tps|]; [|discriminate]. inversion Hm. subst m. clear Hm.
   cbn [sm_states sm_rows]. split; [destruct ee; reflexivity|].
-  rewrite tt_states_first_appearance. apply sml_print_text. exact Hok.
+  assert (N : table_of (map norm_row tt) = table_of tt) by (unfold table_of; rewrite map_map; reflexivity).
+  rewrite tt_states_first_appearance, <- N. apply sml_print_text. rewrite N. exact Hok.
 Qed.
 
 (* the single-tag stage on a template line that carries the tag: the line is replaced by the printed table *)
